@@ -2,6 +2,7 @@ package statecache
 
 import (
 	"sync"
+	"sync/atomic"
 	"time"
 
 	"github.com/0chain/common/core/logging"
@@ -130,16 +131,18 @@ func (sc *StateCache) commit(bc *BlockCache) {
 	verifYield("commit.publish")
 	sc.commitRound(bc.round, bc.prevBlockHash, bc.blockHash)
 
-	sc.hits += bc.hits
-	sc.miss += bc.miss
+	// the block's counters are updated with atomic adds (addStats) by transactions committing concurrently
+	bcHits, bcMiss := atomic.LoadInt64(&bc.hits), atomic.LoadInt64(&bc.miss)
+	sc.hits += bcHits
+	sc.miss += bcMiss
 
 	// Clear the pre-commit cache
 	bc.cache = make(map[string]valueNode)
 	bc.committed = true
 	logging.Logger.Debug("statecache - commit",
 		zap.String("block", bc.blockHash),
-		zap.Int64("bc_hits", bc.hits),
-		zap.Int64("bc_miss", bc.miss),
+		zap.Int64("bc_hits", bcHits),
+		zap.Int64("bc_miss", bcMiss),
 		zap.Int64("sc_hits", sc.hits),
 		zap.Int64("sc_miss", sc.miss),
 		zap.Any("duration", time.Since(ts)))
